@@ -217,7 +217,61 @@ def check_ct(case):
     return PASS(ins >= 1 and sen >= 1, labels)
 
 
+@st.composite
+def reparse_cases(draw, tier):
+    c = draw(dt_cases6(tier, 'dt_off'))
+    c['sem'] = draw(st.sampled_from(SEMS[1:]))
+    c['io2'] = draw(io_assign(c['vars']))
+    c['online'] = draw(st.booleans())
+    return c
+
+
+def check_reparse(case):
+    """The same specification object is parsed and evaluated, its io declarations are changed, and it is parsed and
+    evaluated again: the second result must be the one a fresh object with the new declarations gives."""
+    from ..monitors import build
+    f = from_json(case['formula'])
+    vs = [v for v in case['vars'] if v in F.fvars(f)]
+    sem = case['sem']
+    labels = ['kind:reparse', 'sem:' + sem] + feature_labels(f)
+    if not vs:
+        return DISCARD('no-variable', labels)
+    if case['online'] and F.has_future(f):
+        case = dict(case, online=False)
+    tr = {v: [float(x) for x in case['trace'][v]] for v in vs}
+    n = len(tr[vs[0]])
+    io1 = {v: case['io'].get(v) for v in vs}
+    io2 = {v: case['io2'].get(v) for v in vs}
+    text = 'out = ' + show(f)
+
+    def run(spec):
+        if case['online']:
+            return [spec.update(i, [(v, tr[v][i]) for v in vs]) for i in range(n)]
+        return [p[1] for p in spec.evaluate({'time': [float(i) for i in range(n)], **{v: list(tr[v]) for v in vs}})]
+    try:
+        fresh = run(build('dt', text, vs, semantics=sem, io_types=io_clean(io2)))
+        spec = build('dt', text, vs, semantics=sem, io_types=io_clean(io1))
+        first = run(spec)
+    except Exception as e:  # noqa
+        return DISCARD('raises(C17):' + type(e).__name__, labels)
+    try:
+        for v in vs:
+            spec.set_var_io_type(v, io2[v] or 'output')
+        spec.parse()
+        if case['online']:
+            spec.reset()
+        second = run(spec)
+    except Exception as e:  # noqa
+        return DISCARD('reparse-raises:' + type(e).__name__, labels)
+    if any(not same(a, b, False) for a, b in zip(second, fresh)):
+        return FAIL('reparse-stale-io:' + ('online' if case['online'] else 'offline'),
+                    'semantics %s\nspec: %s\ntrace: %s\nio first %s, then %s and parse() again\nsecond result: %s\nfresh object:  %s' % (
+                        sem, text, tr, io1, io2, fmt_vals(second), fmt_vals(fresh)), labels)
+    return PASS(io_clean(io1) != io_clean(io2) and first != fresh, labels)
+
+
 LANES = [
+    Lane('reparse', lambda tier: reparse_cases(tier), check_reparse, 1000, 15000, std_candidates),
     Lane('dt_off', lambda tier: dt_cases6(tier, 'dt_off'), check_dt, 2500, 40000, std_candidates),
     Lane('dt_on', lambda tier: dt_cases6(tier, 'dt_on'), check_dt, 1500, 20000, std_candidates),
     Lane('ct_off', lambda tier: ct_cases6(tier, 'ct_off'), check_ct, 2000, 30000, ct_candidates),
